@@ -84,7 +84,7 @@ def strat_names(tier):
     fam = st.lists(st.sampled_from(range(len(FAMILIES))), min_size=1, max_size=2, unique=True)
     tree = st.one_of(name_trees(), fam.flatmap(lambda ix: name_trees(
         sum((FAMILIES[i][0] for i in ix), []), sum((FAMILIES[i][1] for i in ix), []))))
-    return st.fixed_dictionaries({'tree': tree, 'style': X.styles(), 'ws': X.whitespace_styles()})
+    return X.fixed_dict({'tree': tree, 'style': X.styles(), 'ws': X.whitespace_styles()})
 
 
 def positions(t, ctx, acc):
@@ -195,6 +195,18 @@ def do_event(op, s):
         if op == 'e':
             v, m = evaluator(s, dict(H_VARS), _h_funcs(), dict(H_SUFF), max_array_dim=2)
             return ('ok', repr(v), sorted(m.variables_used), sorted(m.functions_used), sorted(m.suffixes_used))
+        if op in ('v', 'm'):
+            # 'v': the same strings in ANOTHER scope - vector-valued variables, another multiplier for k, another f;
+            # 'm': the scalar scope, but with one-dimensional arrays at most (the MatrixGrader default).  What is
+            # reported (value, names, array dimension used) belongs to this evaluation alone.
+            from mitxgraders.helpers.calc import MathArray
+            if op == 'v':
+                scope = {'x': MathArray([1.0, 2.0]), 'y': MathArray([3.0, 5.0]), 'z': 5.0, 'sin': 7.0}
+                v, m = evaluator(s, scope, {'f': lambda a: a * 3, 'sin': _h_funcs()['sin']}, {'k': 1024.0}, max_array_dim=2)
+            else:
+                v, m = evaluator(s, dict(H_VARS), _h_funcs(), dict(H_SUFF), max_array_dim=1)
+            return ('ok', repr(v), sorted(m.variables_used), sorted(m.functions_used), sorted(m.suffixes_used),
+                    m.max_array_dim_used)
         if op == 'i':    # evaluation that tolerates infinities
             v, m = evaluator(s, dict(H_VARS), _h_funcs(), dict(H_SUFF), max_array_dim=2, allow_inf=True)
             return ('ok', repr(v), sorted(m.variables_used), sorted(m.functions_used), sorted(m.suffixes_used))
@@ -297,7 +309,16 @@ INF_EVENTS2 = [(op, s) for op in 'eipg' for s in ['1e999', 'x+y', 'sin(0)+x+y', 
                                                     'sin(y)+z', '2', 'f(x)+sin(0)']]
 
 
+# the same strings across scopes: scalar scope ('e'), vector scope with other suffix / function values ('v'), scalar scope
+# with max_array_dim=1 ('m')
+SCOPE_EVENTS = [(op, s) for op in 'evm' for s in ['[x,y]', 'x+y', '[x,y]*2', '2k', 'f(x)', '[x,2k]', 'x*y']]
+
+
 def items_history_inf(tier):
+    for L in (1, 2, 3):
+        for seq in itertools.product(range(len(SCOPE_EVENTS)), repeat=L):
+            if L < 3 or len({SCOPE_EVENTS[i][1] for i in seq}) <= 2:
+                yield {'seq3': list(seq)}
     for L in range(1, 4):
         for seq in itertools.product(range(len(INF_EVENTS)), repeat=L):
             yield {'seq': list(seq)}
@@ -307,6 +328,9 @@ def items_history_inf(tier):
 
 
 def judge_history_inf(spec, rec):
+    if 'seq3' in spec:
+        rec.cls('history/across-scopes')
+        return judge_sequence([SCOPE_EVENTS[i] for i in spec['seq3']], rec, 'history')
     if 'seq2' in spec:
         return judge_sequence([INF_EVENTS2[i] for i in spec['seq2']], rec, 'history')
     return judge_sequence([INF_EVENTS[i] for i in spec['seq']], rec, 'history')
@@ -343,6 +367,8 @@ def judge_random(spec, rec):
 
 PARTS = [
     Part('names', 'hyp', judge_names, strategy=strat_names, budget={'quick': 5000, 'thorough': 100000}),
+    # coverage-guided (atheris/libFuzzer over the same strategy and oracle; thorough tier only, vlib/fuzzworker.py)
+    Part('names-fuzz', 'fuzz', judge_names, strategy=strat_names, budget={'quick': 0, 'thorough': 240000}),
     Part('history', 'enum', judge_history, items=items_history, exhaustive=True, prelude=False),
     Part('history-inf', 'enum', judge_history_inf, items=items_history_inf, exhaustive=True, prelude=False),
     Part('random', 'hyp', judge_random, strategy=strat_random, budget={'quick': 400, 'thorough': 8000}, prelude=False),
